@@ -165,6 +165,108 @@ func runC01(c *Ctx) {
 	c.ruleRoute(a)
 	c.ruleFanout(a)
 	c.ruleStep(a)
+	c.ruleLink()
+}
+
+// ruleLink: C01.link — linkNodes pairs node i with id i and chains them in
+// list order: root = {nodes[0], ids[0]}; for the k-th element of nodes[1:] a
+// fresh linkedNode {that element, ids[k+1]} becomes the ONLY successor of the
+// previous one; the root is returned. Index arithmetic is compared as value
+// origins (same induction variable), not as text.
+func (c *Ctx) ruleLink() {
+	p, r := c.P, c.R
+	const rule = "C01.link"
+	fn := c.Fn(rule, PkgRoot, "", "linkNodes")
+	if fn == nil {
+		return
+	}
+	tb := p.NewTerms(nil)
+	// successful return: a fresh linkedNode
+	var root *ssa.Alloc
+	for _, ret := range Returns(fn) {
+		rv := RetVals(ret)
+		if isNilConst(rv[1]) {
+			al, ok := rv[0].(*ssa.Alloc)
+			if !ok {
+				r.Bad(rule, "linkNodes:root", p.InstrPos(ret), "the list returned is not a node allocated by this call: "+tb.Of(rv[0]).String())
+				return
+			}
+			root = al
+		}
+	}
+	if root == nil {
+		r.Und(rule, "linkNodes:root", p.Pos(fn.Pos()), "no successful return found")
+		return
+	}
+	fieldStores := func(al *ssa.Alloc) map[string]ssa.Value {
+		out := map[string]ssa.Value{}
+		for _, st := range litStores(al) {
+			fa := st.Addr.(*ssa.FieldAddr)
+			out[al.Type().Underlying().(*types.Pointer).Elem().Underlying().(*types.Struct).Field(fa.Field).Name()] = st.Val
+		}
+		return out
+	}
+	rf := fieldStores(root)
+	okRoot := tb.Of(rf["node"]).String() == "Index(Param(0:nodes),Const(0))" && tb.Of(rf["nodeID"]).String() == "Index(Param(1:ids),Const(0))"
+	r.Check(okRoot, rule, "linkNodes:root", p.InstrPos(root), "root = {nodes[0], ids[0]}", "the first list element is not {nodes[0], ids[0]}: node="+tb.Of(rf["node"]).String()+" id="+tb.Of(rf["nodeID"]).String())
+	// the loop element
+	var elem *ssa.Alloc
+	eachInstr(fn, func(in ssa.Instruction) {
+		if al, ok := in.(*ssa.Alloc); ok && al != root && typeShort(al.Type()) == "eventlogger.linkedNode" && inCycle(al.Block()) {
+			elem = al
+		}
+	})
+	if elem == nil {
+		r.Bad(rule, "linkNodes:chain", p.Pos(fn.Pos()), "no successor node is allocated inside a loop over the remaining nodes")
+		return
+	}
+	ef := fieldStores(elem)
+	// node = nodes[1:][k]; id = ids[k+1], same k
+	okElem := false
+	detail := ""
+	if ld, ok := ef["node"].(*ssa.UnOp); ok {
+		if ia, ok := ld.X.(*ssa.IndexAddr); ok {
+			if sl, ok := ia.X.(*ssa.Slice); ok && tb.Of(sl.X).IsParam("0:nodes") {
+				low, _ := constInt(sl.Low)
+				k := ia.Index
+				if ld2, ok := ef["nodeID"].(*ssa.UnOp); ok {
+					if ia2, ok := ld2.X.(*ssa.IndexAddr); ok && tb.Of(ia2.X).IsParam("1:ids") {
+						if add, ok := ia2.Index.(*ssa.BinOp); ok && add.Op == token.ADD && add.X == k {
+							off, _ := constInt(add.Y)
+							okElem = sl.Low != nil && sl.High == nil && low == off && low == 1
+							detail = fmt.Sprintf("nodes[%d:][k] paired with ids[k+%d]", low, off)
+						}
+					}
+				}
+			}
+		}
+	}
+	full, why := c.fullLoop(elem, false)
+	r.Check(okElem && full, rule, "linkNodes:pairing", p.InstrPos(elem), "k-th remaining node paired with ids[k+1], for every remaining node (full loop)", "successor nodes are not {nodes[1:][k], ids[k+1]} for every k ("+detail+" "+why+")")
+	// chaining: prev.next = []*linkedNode{elem}, prev = phi(root, elem)
+	okChain := false
+	eachInstr(fn, func(in ssa.Instruction) {
+		st, ok := in.(*ssa.Store)
+		if !ok {
+			return
+		}
+		fa, ok := st.Addr.(*ssa.FieldAddr)
+		if !ok || typeShort(fa.X.Type()) != "eventlogger.linkedNode" {
+			return
+		}
+		if fa.X.Type().Underlying().(*types.Pointer).Elem().Underlying().(*types.Struct).Field(fa.Field).Name() != "next" {
+			return
+		}
+		v := tb.Of(st.Val)
+		ph, isPhi := fa.X.(*ssa.Phi)
+		if v.Op == "SliceLit" && len(v.Args) == 1 && v.Args[0].V == ssa.Value(elem) && isPhi && len(ph.Edges) == 2 {
+			a, b := ph.Edges[0], ph.Edges[1]
+			if (a == ssa.Value(root) && b == ssa.Value(elem)) || (b == ssa.Value(root) && a == ssa.Value(elem)) {
+				okChain = true
+			}
+		}
+	})
+	r.Check(okChain, rule, "linkNodes:chain", p.InstrPos(elem), "each new node becomes the only successor of the previous one (starting at the root)", "the nodes are not chained one after the other in list order")
 }
 
 func (c *Ctx) ruleRoute(a *protoAnchors) {
